@@ -59,6 +59,12 @@ CHECKS = {
  "C17": ("bounded-exhaustive program-space enumeration x complete format-spec grid (differential against `<str as Display>`), plus placeholder literals generated from a segment grammar compared with format! of the same literal",
          "Every enabled variant of every enum of the bounded space is formatted with every spec of the grid and must equal the reference name formatted as &str; every placeholder literal of the grammar (all arrangements with repetition, spec forms, separators incl. adjacent escaped braces) must render exactly like format! with the same literal and the fields bound by name/position.",
          "trusted: rustc/core::fmt as reference, vf-core R-name, generated constructors; interpolated variants compared under `{}` only", "DESIGN.md §4 C17"),
+ "C07": ("exhaustive identifier-space enumeration (all valid identifiers <= L over {a,B,1,_}) x all 16 accepted style strings compiled into giant enums, plus a dictionary x 6 derives, vs an independently written word-splitting reference",
+         "For each of the 16 accepted style strings every valid identifier up to the length bound is a variant of one enum and its VariantNames entry must equal the reference re-casing; a dictionary of realistic names (acronyms, digits, underscores, non-ASCII) is checked through every printing/parsing derive (also case-insensitively), with explicit spellings never re-cased.",
+         "trusted: rustc, std char case mapping, vf-core R-case word splitter", "DESIGN.md §4 C07"),
+ "C09": ("bounded-exhaustive program-space enumeration (kinds, explicit discriminants, repr, generics, visibilities, strum_discriminants options) x payload palette, on compiled derive output living in a nested module vs rustc's discriminant rule and a hand-written reference enum",
+         "For every enum of the bounded space every variant is built with several payloads and converted through From<E>, From<&E> and discriminant(); the resulting variant name and integer value must equal the reference discriminant; layout equals a hand-written field-less enum; requested derives, pass-through attributes, name and visibility overrides are exercised from outside the defining module.",
+         "trusted: rustc casts and layout queries, derived Debug, generated constructors, vf-core R-disc/R-case", "DESIGN.md §4 C09"),
 }
 PENDING = {}
 
